@@ -47,4 +47,9 @@ META = {
         "note": "Trusted: Lean kernel; cache model; the harness' raw getsockopt as the kernel truth; closes go through the hook.",
         "design_ref": "DESIGN.md §4 C19",
     },
+    "C14": {
+        "text": "Interval-arithmetic theorems over all argument values: sleep/usleep/nanosleep request exactly the asked time; poll's and select's doubling loops add up to exactly the timeout when nothing is ready (select rounds up to the next ms: never early, < 1 ms late); pthread_cond_timedwait returns ETIMEDOUT exactly at the absolute deadline; invalid arguments => EINVAL and no wait; the event loop's 10 ms slicing never returns before the deadline and overshoots by at most the accumulated slack. Tie: the real calls with scripted probes, intercepted waits and a virtual clock (exact list of requested waits compared), plus a wall-clock smoke on a live event loop.",
+        "note": "Trusted: Lean kernel; hand-written model; wait interception hook + virtual clock; scheduling slack is an assumption (measured only by the smoke run). Coroutine callers are not exercised by this check.",
+        "design_ref": "DESIGN.md §4 C14",
+    },
 }
